@@ -4,6 +4,7 @@
 import SSEPyVerif.Proofs.Schemes.Levels
 import SSEPyVerif.Model.Schemes.SSE1
 import SSEPyVerif.Props.C15
+import SSEPyVerif.Proofs.Schemes.PrpInj
 namespace SSEPy.Sch.SSE1
 open SSEPy.Sch
 
@@ -567,6 +568,70 @@ theorem psiInj_of_leaves (hl : ∀ k m, (lv.hmac k m).length = 20) (h2 : 2 ≤ c
       rfl
     · cases hb
   · cases ha
+
+omit hde in
+/-- π on keywords: the table label determines the keyword (π invertible, C15; big-endian decoding injective on keywords
+    without a leading NUL byte) -/
+theorem pi_inj (hl : ∀ k m, (lv.hmac k m).length = 20) (hl8 : 2 ≤ (cfg.l * 8).toNat) (K3 : Bytes) (w w' g : Bytes)
+    (hw : NoLeadingNul w) (hw' : NoLeadingNul w') (h : piBytes cfg lv K3 w = .ok g) (h' : piBytes cfg lv K3 w' = .ok g) :
+    w = w' := by
+  simp only [piBytes, bind, Except.bind] at h h'
+  split at h
+  · cases h
+  · rename_i key hkey
+    rw [hkey] at h'
+    simp only at h'
+    obtain ⟨hkw, _, _⟩ := mk'_spec _ _ key hkey
+    split at h
+    · cases h
+    · rename_i m hm
+      split at h'
+      · cases h'
+      · rename_i m' hm'
+        split at h
+        · cases h
+        · rename_i out hout
+          split at h'
+          · cases h'
+          · rename_i out' hout'
+            obtain ⟨m1, m2, m3⟩ := mk'_spec _ _ m hm
+            obtain ⟨n1, n2, n3⟩ := mk'_spec _ _ m' hm'
+            have hml := m3 (by omega)
+            have hnl := n3 (by omega)
+            obtain ⟨kb, o, hkb, ho, how, hol, hd⟩ := C15.bit_prp_is_ffx lv.hmac 20 hl (by decide) key m hkw m1 (by omega)
+            obtain ⟨kb', o', hkb', ho', how', hol', hd'⟩ := C15.bit_prp_is_ffx lv.hmac 20 hl (by decide) key m' hkw n1 (by omega)
+            rw [hkb] at hkb'; cases hkb'
+            have hk8 : (key.length : Int) = cfg.k * 8 := by
+              by_cases hne : (key.length : Int) = cfg.k * 8
+              · exact hne
+              · rw [(C15.bit_prp_contracts lv.hmac 20 _ _ key m).1 hne] at hout; cases hout
+            have hm8 : (m.length : Int) = cfg.l * 8 := by
+              by_cases hne : (m.length : Int) = cfg.l * 8
+              · exact hne
+              · rw [(C15.bit_prp_contracts lv.hmac 20 _ _ key m).2 hk8 hne] at hout; cases hout
+            have hn8 : (m'.length : Int) = cfg.l * 8 := by rw [hnl, ← hml]; exact hm8
+            rw [← hk8, ← hm8, ho] at hout
+            rw [← hk8, ← hn8, ho'] at hout'
+            cases hout; cases hout'
+            -- equal label bytes: equal values, equal lengths, equal bitsets
+            obtain ⟨v1, l1⟩ := toBytes_spec out g h
+            obtain ⟨v2, l2⟩ := toBytes_spec out' g h'
+            have hoo : out = out' := by
+              cases out; cases out'
+              simp only at v1 v2 hol hol'
+              rw [hml] at hol; rw [hnl] at hol'
+              subst hol; subst v1
+              rw [hol', v2]
+            rw [hoo, hd'] at hd
+            cases hd
+            have : fromBE w = fromBE w' := by rw [← m2, ← n2]
+            exact fromBE_inj w w' hw hw' this
+
+omit hde in
+theorem gammaInj_of_leaves (hl : ∀ k m, (lv.hmac k m).length = 20) (hl8 : 2 ≤ (cfg.l * 8).toNat) (K3 : Bytes) (db : DB)
+    (hvalid : ∀ p ∈ db, NoLeadingNul p.1) : GammaInj cfg lv K3 db := by
+  intro w ids w' ids' g hm hm' h h'
+  exact pi_inj cfg lv hl hl8 K3 w w' g (hvalid _ hm) (hvalid _ hm') h h'
 
 omit hde in
 theorem cfgBuild_ok (raw : RawCfg) (h : SSE1.cfgBuild raw = .ok cfg) :
